@@ -10,6 +10,8 @@ import PydapModel.CE
 import PydapModel.TableVal
 import Proofs.Seq
 import Proofs.SeqEnc
+import PydapModel.SeqClient
+import Proofs.SeqClient
 namespace Pydap.C04
 open Pydap Pydap.IterData Pydap.Seq
 
@@ -155,6 +157,160 @@ theorem C04_clause_roundtrip (c : Cond)
   cases c with
   | mk a o b => cases o <;> rfl
 
+
+/-! ### the client's lazy sequence operators and `open_url(url?ce)` (client model of C14 → text → server) -/
+section Operators
+open Pydap.SeqClient
+
+/-- the three backends serve the reference (the theorems above, one statement) -/
+theorem C04_serve_any_backend (cmp : Op → A → A → Bool) (enc : A → List Char) (lit : List Char → Option A)
+    (henc : ∀ v, lit (enc v) = some v) (id : Name) (hhead : ∀ v, rsplitHead (enc v) ≠ id)
+    (names : List Name) (hnd : names.Nodup) (hid : id ∉ names) (hne : [] ∉ names)
+    (rows : List (List A)) (hrows : ∀ r ∈ rows, r.length = names.length) (bk : Backend)
+    (q : Request) (rcs : List (RCond A))
+    (hcl : q.clauses.mapM (resolve lit id names) = some rcs)
+    (hcols : ∀ k ∈ q.cols.getD names, k ∈ names) :
+    serve cmp enc lit bk id names rows q
+      = refEval cmp names ⟨rcs, .table (q.cols.getD names), q.range.toList⟩ rows := by
+  cases bk with
+  | numpy =>
+    have := C04_serve_numpy cmp lit id names hid hne rows hrows q rcs hcl hcols
+    simpa [serve] using this
+  | iterdata =>
+    exact C04_serve_lazy_full cmp enc lit henc id hhead names hnd hid hne rows hrows false q rcs hcl hcols
+  | csv =>
+    exact C04_serve_lazy_full cmp enc lit henc id hhead names hnd hid hne rows hrows true q rcs hcl hcols
+
+/-- **Constraint built with the client's lazy sequence operators = constraint written in the URL = the
+    reference.**  A dataset is opened with `open_url(url)` or `open_url(url?ce)` (`u`: the projection
+    and selection of the URL; object `r` of a well-formed client heap `h` is the sequence proxy
+    `add_dap2_proxies` installs).  Any chain `l` of the client operators is applied — filters written with
+    the comparison operators on column proxies (`seq[(seq.a > 1) & (seq.b <= seq.c)]`, all six operators,
+    column-vs-constant and column-vs-column), column lists, slices, integer indices, in any order and with
+    repetitions — and before every derivation an arbitrary history of other client events (C14's
+    `deriveAmid`) takes place.  Then the derived proxy issues a GET whose query text `q` (`SequenceProxy.url`,
+    with the record range on the first item: `s[a:s:b].f,s.i`) the server reads (`parse_ce`, hyperslab,
+    operator split) and answers (`Seq.serve`, any of the three backends) with exactly
+    `project cols (slice range (filter clauses rows))` for the accumulated columns (the last column list,
+    else those of the URL, else all), the accumulated clauses (those of the URL, then those of every
+    filter, in order) and the accumulated record range (`combine_slices` of the URL's range and the
+    slices, C03).  With `l = []` this is the statement for `open_url(url?ce)` itself.
+    Side conditions: names are free of the characters of the CE syntax; the accumulated range has
+    start ≥ 0, step ≥ 1 and a stop that is absent or ≥ 1 (C03: `stop = 0` prints as unbounded); the
+    source has at most `sys.maxsize` records (an absent stop travels as `MAXSIZE - 1`); an encoded value
+    reads back as itself, does not look like `id.column`, does not start with `=`/`~`, has no `&`. -/
+theorem C04_operators (cmp : Op → A → A → Bool) (enc : A → List Char) (lit : List Char → Option A)
+    (henc : ∀ v, lit (enc v) = some v) (id : Name) (hhead : ∀ v, rsplitHead (enc v) ≠ id)
+    (hst : ∀ v ch r, enc v = ch :: r → ch ≠ '=' ∧ ch ≠ '~')
+    (names : List Name) (hnd : names.Nodup) (hnn : names ≠ []) (hid : id ∉ names)
+    (hidok : NameOk id) (hnames : ∀ k ∈ names, NameOk k)
+    (rows : List (List A)) (hrows : ∀ r ∈ rows, r.length = names.length)
+    (hlen : (rows.length : Int) ≤ MAXSIZE) (bk : Backend)
+    (u : UrlCE) (rcs0 : List (RCond A)) (hu : UrlOk lit id names u rcs0)
+    (h : Proxy.Heap) (w : Proxy.WF h) (r : Nat) (base : Name) (σ : Proxy.Sess) (tm : Nat)
+    (hs : Proxy.specAt h r = some (Proxy.specOf (openTmpl id names u) (openProxy base σ tm u)))
+    (l : List (List Proxy.Ev × COp A))
+    (hops : ∀ x ∈ l, OpOk enc (openTmpl id names u).keys x.2)
+    (hr : RangeOk ((l.map (·.2)).foldl (accStep enc id) (openAcc id names u)).sl) :
+    let d := Proxy.deriveAmid h r (l.map fun x => (x.1, keyOf enc [id] (openProxy base σ tm u) x.2))
+    let a := (l.map (·.2)).foldl (accStep enc id) (openAcc id names u)
+    ∃ q, objQuery d.1 d.2 = some q ∧
+      serveQuery cmp enc lit bk id names rows q
+        = some (refEval cmp names
+            ⟨rcs0 ++ (l.map (·.2)).flatMap opRcs, .table (if a.sub then a.vis else names), rangeList a.sl⟩ rows) := by
+  intro d a
+  have hne : [] ∉ names := fun hm => (hnames [] hm).1 rfl
+  -- the template's children are columns of the sequence
+  have hkeys : ∀ k ∈ (openTmpl id names u).keys, k ∈ names := by
+    obtain ⟨proj, sel⟩ := u
+    cases proj with
+    | none => exact fun k hk => hk
+    | some pr =>
+      obtain ⟨c, rg⟩ := pr
+      cases c with
+      | none => exact fun k hk => hk
+      | some cols => exact fun k hk => (hu.2 cols rg rfl).2.2 k hk
+  have hkok : ∀ k ∈ (openTmpl id names u).keys, NameOk k := fun k hk => hnames k (hkeys k hk)
+  have hvis0 : VisOk (openTmpl id names u).keys (openAcc id names u) := by
+    obtain ⟨proj, sel⟩ := u
+    cases proj with
+    | none => intro hsub; cases hsub
+    | some pr =>
+      obtain ⟨c, rg⟩ := pr
+      cases c with
+      | none => intro _; exact ⟨hnn, hnd, fun k hk => hk⟩
+      | some cols => intro _; exact ⟨(hu.2 cols rg rfl).1, (hu.2 cols rg rfl).2.1, fun k hk => hk⟩
+  -- C14 (`deriveAmid_spec`, the lemma behind `C14_fresh_equiv`): the derived object is described by the pure
+  -- accumulation of the keys
+  have hchain := specChain_keys enc base id (openTmpl id names u).keys σ hidok hkok (openProxy base σ tm u)
+    (l.map (·.2)) (openAcc id names u) (fun op hop => by
+      obtain ⟨x, hx, rfl⟩ := List.mem_map.mp hop; exact hops x hx)
+  have hsnd : (l.map fun x => (x.1, keyOf enc [id] (openProxy base σ tm u) x.2)).map Prod.snd
+      = (l.map (·.2)).map (keyOf enc [id] (openProxy base σ tm u)) := by
+    simp [List.map_map, Function.comp_def]
+  have hspec := Proxy.deriveAmid_spec h w r _ _ (l.map fun x => (x.1, keyOf enc [id] (openProxy base σ tm u) x.2))
+    (by rw [hs, open_spec]) (by rw [hsnd]; exact hchain)
+  refine ⟨_, objQuery_of_specAt hspec, ?_⟩
+  -- the invariants of the accumulation, then the wire
+  obtain ⟨hsel, hvis⟩ := run_invariants enc lit id names (openTmpl id names u).keys hidok hnames hkeys henc hhead hst
+    (l.map (·.2)) (openAcc id names u) rcs0 (fun op hop => by
+      obtain ⟨x, hx, rfl⟩ := List.mem_map.mp hop; exact hops x hx) hu.1 hvis0
+  obtain ⟨conds, hres, hreq⟩ := query_request lit base id (openTmpl id names u).keys names σ a _ hidok hnames hkeys
+    hvis hsel hr
+  unfold serveQuery
+  cases hp : parseCE (specQuery (accSpec base id (openTmpl id names u).keys σ a)) with
+  | none => rw [hp] at hreq; simp at hreq
+  | some ps =>
+    obtain ⟨proj, sel⟩ := ps
+    rw [hp] at hreq
+    simp only [Option.bind_some] at hreq
+    simp only [hreq, Option.map_some, Option.some.injEq]
+    have hcols : ∀ k ∈ (if a.sub then some a.vis else none).getD names, k ∈ names := by
+      intro k hk
+      cases hsub : a.sub with
+      | false => simpa [hsub] using hk
+      | true => rw [hsub] at hk; exact hkeys k ((hvis hsub).2.2 k (by simpa using hk))
+    rw [C04_serve_any_backend cmp enc lit henc id hhead names hnd hid hne rows hrows bk _ _ hres hcols]
+    simp only
+    rw [refEval_wire cmp names _ _ a.sl rows hlen]
+    cases hsub : a.sub <;> rfl
+
+open Pydap.TableVal in
+/-- **The same on the value domain of the property** (`encVal` = `pydap.lib.encode`, `litVal` =
+    `ast.literal_eval`, character level): the conditions on encoded values are lemmas, except that a string
+    written into a filter has no `&` (part of `OpOk`; such a string would cut the URL). -/
+theorem C04_operators_val (id : Name) (hidc : ∃ c r, id = c :: r ∧ c.isAlpha = true)
+    (names : List Name) (hnd : names.Nodup) (hnn : names ≠ []) (hid : id ∉ names)
+    (hidok : NameOk id) (hnames : ∀ k ∈ names, NameOk k)
+    (rows : List (List Val)) (hrows : ∀ r ∈ rows, r.length = names.length)
+    (hlen : (rows.length : Int) ≤ MAXSIZE) (bk : Backend)
+    (u : UrlCE) (rcs0 : List (RCond Val)) (hu : UrlOk litVal id names u rcs0)
+    (h : Proxy.Heap) (w : Proxy.WF h) (r : Nat) (base : Name) (σ : Proxy.Sess) (tm : Nat)
+    (hs : Proxy.specAt h r = some (Proxy.specOf (openTmpl id names u) (openProxy base σ tm u)))
+    (l : List (List Proxy.Ev × COp Val))
+    (hops : ∀ x ∈ l, OpOk encVal (openTmpl id names u).keys x.2)
+    (hr : RangeOk ((l.map (·.2)).foldl (accStep encVal id) (openAcc id names u)).sl) :
+    let d := Proxy.deriveAmid h r (l.map fun x => (x.1, keyOf encVal [id] (openProxy base σ tm u) x.2))
+    let a := (l.map (·.2)).foldl (accStep encVal id) (openAcc id names u)
+    ∃ q, objQuery d.1 d.2 = some q ∧
+      serveQuery cmpVal encVal litVal bk id names rows q
+        = some (refEval cmpVal names
+            ⟨rcs0 ++ (l.map (·.2)).flatMap opRcs, .table (if a.sub then a.vis else names), rangeList a.sl⟩ rows) := by
+  have hst : ∀ v ch r, encVal v = ch :: r → ch ≠ '=' ∧ ch ≠ '~' := by
+    intro v ch r e
+    obtain ⟨c, r', e', hc⟩ := encVal_head v
+    rw [e] at e'
+    simp only [List.cons.injEq] at e'
+    obtain ⟨rfl, _⟩ := e'
+    rcases hc with rfl | rfl | hd
+    · exact ⟨by decide, by decide⟩
+    · exact ⟨by decide, by decide⟩
+    · constructor <;> (intro e2; subst e2; exact absurd hd (by decide))
+  exact C04_operators cmpVal encVal litVal litVal_encVal id (encVal_head_ne id hidc) hst names hnd hnn hid hidok hnames
+    rows hrows hlen bk u rcs0 hu h w r base σ tm hs l hops hr
+
+end Operators
+
 /-! ### non-vacuity -/
 section NonVacuity
 open Pydap.TableVal
@@ -197,6 +353,50 @@ example : (∃ c r, (['s'] : Name) = c :: r ∧ c.isAlpha = true)
 
 example : CE.parseClause (CE.renderClause ⟨['s', '.', 'i'], .le, ['-', '1']⟩) = some ⟨['s', '.', 'i'], .le, ['-', '1']⟩ := by
   decide
+
+/-! the hypotheses of `C04_operators_val` hold for a heap opened by `open_url`, a chain with interleaved reads,
+    and the text that chain writes (`s[0:1:5].t,s.i&s.t="a"&s.i>=s.f`) is answered with the reference rows -/
+section OperatorsExample
+open Pydap.SeqClient
+def opHeap : Proxy.Heap := Proxy.openHeap ['u'] [] (some 7) ['s'] exNames [(['a'], [3], false)]
+def opUrl : UrlCE := ⟨none, []⟩
+/-- `seq[(seq.t == "a") & (seq.i >= seq.f)]`, (the opened sequence is read), `[["t","i"]]`, `[0:6]` -/
+def opChain : List (List Proxy.Ev × COp Val) :=
+  [([], .filt ⟨['t'], .eq, .val (.str ['a'])⟩ [⟨['i'], .ge, .col ['f']⟩]),
+   ([.iter 0, .aget 1 [Idx.sl ⟨some 1, none, none⟩]], .cols [['t'], ['i']]),
+   ([], .sl ⟨some 0, some 6, none⟩)]
+
+example : Proxy.WF opHeap := by
+  intro p hp
+  simp [opHeap, Proxy.openHeap] at hp
+  subst hp
+  decide
+example : Proxy.specAt opHeap 0 = some (Proxy.specOf (openTmpl ['s'] exNames opUrl) (openProxy ['u'] (some 7) 0 opUrl)) := by
+  decide
+example : NameOk ['s'] ∧ (∀ k ∈ exNames, NameOk k) := by
+  refine ⟨⟨by decide, by decide⟩, ?_⟩
+  intro k hk
+  simp [exNames] at hk
+  rcases hk with rfl | rfl | rfl <;> exact ⟨by decide, by decide⟩
+example : UrlOk litVal ['s'] exNames opUrl [] := ⟨⟨by simp [opUrl], [], rfl, rfl⟩, by simp [opUrl]⟩
+example : ∀ x ∈ opChain, OpOk encVal (openTmpl ['s'] exNames opUrl).keys x.2 := by
+  intro x hx
+  simp [opChain] at hx
+  rcases hx with rfl | rfl | rfl
+  · intro c hc
+    simp at hc
+    rcases hc with rfl | rfl
+    · exact ⟨by decide, by decide⟩
+    · exact ⟨by decide, by decide⟩
+  · exact ⟨by decide, by decide, by decide⟩
+  · trivial
+example : RangeOk ((opChain.map (·.2)).foldl (accStep encVal ['s']) (openAcc ['s'] exNames opUrl)).sl := by
+  right
+  exact ⟨0, 6, 1, by decide, by decide, by decide, by decide⟩
+example : (answers · [.row [.str ['a'], .num 16], .row [.str ['a'], .num 48]]) <$>
+    (serveQuery cmpVal encVal litVal .csv ['s'] exNames exRows "s[0:1:5].t,s.i&s.t=\"a\"&s.i>=s.f".toList) = some true := by
+  decide
+end OperatorsExample
 
 end NonVacuity
 
